@@ -13,7 +13,7 @@ for d in "$@"; do
   if ! git apply $d/patch.diff; then echo "SEED $name: patch does not apply"; continue; fi
   if ! cmake --build _build -j12 >/tmp/confirm_build_$name.log 2>&1; then echo "SEED $name: does not compile"; git checkout -- .; continue; fi
   python3 /verif/tools/run_baseline.py $WT/_build > /tmp/confirm_tests_$name.log 2>&1; trc=$?
-  g++ -std=c++11 -I $WT/src/lib/pkcs11 -o /tmp/confirm_demo_$name $d/demo.cpp -ldl >/tmp/confirm_demoBuild_$name.log 2>&1 || { echo "SEED $name: demo does not build"; git checkout -- .; continue; }
+  g++ -std=c++11 -I $WT/src/lib/pkcs11 -o /tmp/confirm_demo_$name $d/demo.cpp -ldl -lcrypto >/tmp/confirm_demoBuild_$name.log 2>&1 || { echo "SEED $name: demo does not build"; git checkout -- .; continue; }
   (cd /tmp && timeout 300 /tmp/confirm_demo_$name $WT/_build/src/lib/libsofthsm2.so > /tmp/confirm_demoWith_$name.log 2>&1); with=$?
   git checkout -- .
   cmake --build _build -j12 >/tmp/confirm_build2_$name.log 2>&1
